@@ -189,7 +189,9 @@ namespace vf
             {
                 for (size_t i = free_.size(); i-- > 0;)
                     if (free_[i].bytes == bytes
-                        && reinterpret_cast<uintptr_t>(free_[i].addr) % align == 0)
+                        && reinterpret_cast<uintptr_t>(free_[i].addr) % 16 == skew_
+                        && reinterpret_cast<uintptr_t>(free_[i].addr) % req_align == 0
+                        && (align <= 16 || reinterpret_cast<uintptr_t>(free_[i].addr) % align == 0))
                     {
                         p = free_[i].addr;
                         free_.erase(free_.begin() + long(i));
